@@ -767,6 +767,16 @@ def sample_lookups(lst, view, rng):
     return out
 
 
+def icolumn_case(tab0):
+    """the known finding: an ECO2M table (integer column 'I' first) whose FIRST row at the first result time prints a
+    negative first real right against the integer (' 2-0.221166E+08'): parse_table_line bounds the I column by the first
+    blank after the digit, which then lies behind the pressure"""
+    if tab0 is None or not tab0.has_i or not tab0.rows:
+        return False
+    toks = tab0.rows[0][3]
+    return len(toks) >= 2 and toks[1][0].startswith('-') and toks[1][1] == toks[0][2]
+
+
 def job_c05(job):
     """runs in a worker: open one (variant of a) listing with the real reader, compare every exposed table at the
     chosen result times with the printed rows, check skip-table independence and addressing.
@@ -819,6 +829,7 @@ def job_c05(job):
             continue
         base_views[i] = view
         printed = {t.name: t for t in sc.blocks[i]}
+        printed0 = {t.name: t for t in sc.blocks[0]} if sc.blocks else {}
         for name in lst.table_names:
             rows, cols, m = view[3][name]
             res['tables'].setdefault(name, (len(rows), len(cols)))
@@ -830,7 +841,10 @@ def job_c05(job):
             vs, s2 = check_table_against_print(printed[name], family, rows, cols, m, sc.lines)
             st.update(s2)
             for (kind, text, detail) in vs:
-                viol('%s:%s:%s' % (kind, family, re.sub(r'\d+$', '', name)), 'result %d, table %s: %s' % (i, name, text), index=i, table=name, **detail)
+                key = '%s:%s:%s' % (kind, family, re.sub(r'\d+$', '', name))
+                if kind == 'cell' and detail.get('col') == 0 and icolumn_case(printed0.get(name)):
+                    key += ':I-column'
+                viol(key, 'result %d, table %s: %s' % (i, name, text), index=i, table=name, **detail)
             vs, s2 = check_addressing(t, rows, cols, m, rng, job.get('addr_samples', 12))
             st.update(s2)
             for (kind, text, detail) in vs:
@@ -1019,7 +1033,7 @@ class Timeout:
 # ====================================================================== property module interface
 
 THEOREMS = ['Props.C05.' + t for t in ['column_boundaries_correct', 'row_slicing_correct', 'field_value_printed', 'blank_field_is_zero',
-                                    'field_beyond_row_is_zero', 'line_terminator_ignored', 'row_format_decidable',
+                                    'field_beyond_row_is_zero', 'line_terminator_ignored', 'row_format_decidable', 'icolumn_negative_first_real_witness',
                                     'rows_keyed_by_printed_index', 'rows_in_index_order', 'autough2_row_split_correct',
                                     'autough2_adjacent_numbers_merge', 'addressing_agrees', 'reversed_key_row']]
 LEVEL_TEXT = ('Proof: 13 Lean theorems about the row layer of the reader and listingtable: parse_table_line infers exactly the field starts from a line of '
@@ -1118,7 +1132,7 @@ def run(ctx):
     res.rule = ('cases = (shipped listing file | value-perturbed variant) x result index (first/middle/last/random in quick, all in thorough) '
                 'x exposed table; non-trivial = distinct (file, variant, table) whose rows were compared cell by cell with the printed text')
     rng = ctx.rng('c05')
-    jobs = build_jobs(ctx, rng, ctx.n(2, 12), ctx.n(3, 'all'), ctx.n('some', 'all'), dump=ctx.model_ok)
+    jobs = build_jobs(ctx, rng, ctx.n(2, 40), ctx.n(3, 'all'), ctx.n('some', 'all'), dump=ctx.model_ok)
     fam_of = dict(corpus())
     for rel, vs in FIXED_VARIANTS:
         if rel in fam_of:
@@ -1154,7 +1168,54 @@ def run(ctx):
     res.facet('oracle_tables')['cases'] = res.stats.get('tables-checked', 0)
     if ctx.model_ok:
         correspond(ctx, res, jobs, results)
+    if not ctx.quick:
+        try:
+            measure_reach(ctx, res)
+        except Exception as e:
+            ctx.notes.append('reach measurement failed: %s' % e)
     return res
+
+
+def measure_reach(ctx, res):
+    """thorough tier: which lines of the anchored code (t2listing.py: listingtable and t2listing up to history()) the
+    explored inputs execute — a facet cannot notice a change to a line it never runs"""
+    import coverage, random, ast
+    src = core.REPO / 't2listing.py'
+    tree = ast.parse(src.read_text())
+    anchored = set()
+    for node in tree.body:
+        if isinstance(node, ast.ClassDef) and node.name in ('listingtable', 't2listing'):
+            for f in node.body:
+                if isinstance(f, ast.FunctionDef) and f.name not in ('get_vtk_data', 'write_vtk', 'add_side_recharge', 'get_DataFrame',
+                                                                     'rows_matching', '__add__', '__sub__', 'get_reductions', 'get_difference', '__repr__'):
+                    anchored.update(range(f.lineno, f.end_lineno + 1))
+    cov = coverage.Coverage(include=[str(src)], data_file=None)
+    cov.start()
+    try:
+        rng = random.Random(ctx.seed)
+        for rel, family in corpus():
+            lst = open_listing(listing_base() / rel, [])
+            n = lst.num_fulltimes
+            for i in range(n):
+                lst.index = i
+            lst.first(); lst.next(); lst.prev(); lst.last()
+            lst.time = float(lst.fulltimes[0]); lst.step = int(lst.fullsteps[-1])
+            names = lst.table_names
+            t = table_of(lst, names[0])
+            lst.history([(names[0][0], t.row_name[0], t.column_name[0])])
+            if len(names) > 1:
+                open_listing(listing_base() / rel, [names[-1]]).close()
+            lst.close()
+    finally:
+        cov.stop()
+    data = cov.get_data()
+    executed = set(data.lines(str(src)) or [])
+    _, statements, _, missing, _ = cov.analysis2(str(src))
+    stm = [l for l in statements if l in anchored]
+    hit = [l for l in stm if l in executed]
+    res.stats['reach:anchored-statements'] = len(stm)
+    res.stats['reach:executed-by-shipped-files'] = len(hit)
+    res.stats['reach:not-executed-lines'] = ','.join(str(l) for l in stm if l not in executed)[:1500]
 
 
 # ---------------------------------------------------------------------- correspondence with the Lean model
